@@ -9,17 +9,18 @@ Import ListNotations.
 Open Scope R_scope.
 
 (* _init_params lists exactly the features selected by the mask (all of them without a mask), in order;
-   a mask of the wrong length is an error *)
+   a mask of the wrong length or selecting no feature is an error *)
 Theorem C15_mask_selects : forall (T : Type) d (mask : option (list bool)) (draw : nat -> list T) cpl,
   init_cuts d mask draw = Some cpl ->
   used_features d mask = Some (map fst cpl) /\
   match mask with
   | None => map fst cpl = seq 0 d
-  | Some m => length m = d /\ forall f, In f (map fst cpl) <-> (f < d)%nat /\ nth f m false = true
+  | Some m => (length m = d /\ forall f, In f (map fst cpl) <-> (f < d)%nat /\ nth f m false = true) /\ cpl <> []
   end.
 Proof.
   intros T d mask draw cpl H. pose proof (init_cuts_features d mask draw cpl H) as Hu. split; [exact Hu|].
-  destruct mask as [m|]; [exact (used_features_mask d m _ Hu) | cbn in Hu; congruence].
+  destruct mask as [m|]; [| cbn in Hu; congruence]. split; [exact (used_features_mask d m _ Hu)|].
+  intros E. subst cpl. exact (used_features_nonempty d m _ Hu eq_refl).
 Qed.
 
 (* predictions do not depend on the columns excluded by the mask: for every number system, every shape,
